@@ -477,8 +477,10 @@ fn eager_line(rng: &mut Rng) -> Scenario {
         ClientOp::Line { session: 0, src: format!("{}, z = 100", super::c04::SPIN) },
         ClientOp::Line { session: 0, src: format!("nowait>a = {a}, p = @#{{ !#'int }}, w = [{sp}, 0] spin, b = {b}, {m} p, c = !p, [z, a, b, c]") },
         ClientOp::Line { session: 0, src: "nowait>[z, 7]".to_string() },
-        // a second session ends the script; the first is judged from the process table
+        // a second session lets the first come to rest; the first is judged from the process table
         ClientOp::Line { session: 1, src: format!("{}, w = [800, 0] spin", super::c04::SPIN) },
+        // and from its variables, read without resuming it
+        ClientOp::Vars { session: 0 },
     ];
     Scenario {
         family: "c11-eager-client".into(),
@@ -488,7 +490,7 @@ fn eager_line(rng: &mut Rng) -> Scenario {
         timing: false,
         io: false,
         fixed_faults: Default::default(),
-        expect: serde_json::json!({ "eager": [format!("[100, {a}, {b}, {m}]"), "[100, 7]"] }),
+        expect: serde_json::json!({ "eager": [format!("[100, {a}, {b}, {m}]"), "[100, 7]"], "eager_vars": { "z": "100", "a": a.to_string(), "b": b.to_string(), "c": m.to_string() } }),
         shape: h.0,
         est_len: 150,
         min_quantum: 0,
@@ -814,6 +816,17 @@ impl Property for C11 {
             let got = r.procs.get("R0").cloned().unwrap_or_default();
             if !legal.iter().any(|l| l.as_str() == Some(got.as_str())) {
                 v.push(Violation::new("C11", "line-value", "running-line-damaged-by-early-line", format!("the session process ended with {got}; the line that was running when the next one was entered yields {}, as the same steps do as one program", legal[0]), r.steps));
+                return v;
+            }
+            // whichever of the two happened, the bindings of the running line keep their values
+            if let (Some(want), Some(Out::Vars(vars))) = (scn.expect.get("eager_vars").and_then(|x| x.as_object()), r.outs.iter().rev().find(|o| matches!(o, Out::Vars(_)))) {
+                for (name, val) in want {
+                    let got = vars.iter().find(|(n, _, _)| n == name).map(|(_, _, v)| v.clone());
+                    if got.as_deref() != val.as_str() {
+                        v.push(Violation::new("C11", "variables", "session-bindings-damaged-by-early-line", format!("after a line was entered while the previous one was still running, variable {name} reads {:?}; the running line bound it to {}", got, val), r.steps));
+                        break;
+                    }
+                }
             }
             return v;
         }
